@@ -145,7 +145,8 @@ SPEC = {
         "differs_unused_argument_expanded", "differs_argument_repainted",
         "differs_painted_function_name_reinvoked", "differs_painted_function_name_reinvoked_acyclic",
         "differs_function_name_before_vanished_macro", "differs_empty_argument_next_to_paste",
-        "agrees_on_invocation_completed_after_expansion", "differs_outside_class_with_paste"]],
+        "agrees_on_invocation_completed_after_expansion", "differs_outside_class_with_paste",
+        "differs_invocation_spanning_file_boundary"]],
     "harness": "c12",
     "nontrivial": nontrivial,
     "finding_key": finding_key,
